@@ -3,6 +3,7 @@ import TerwayModel.Driver.Net
 import TerwayModel.Driver.Token
 import TerwayModel.Driver.VSwitch
 import TerwayModel.Driver.Bandwidth
+import TerwayModel.Driver.Capacity
 /-
 `drv`: reads one operation per line (`<model>.<op> arg…`), prints one canonical line per input.
 Malformed or unknown lines print `bad-op` — never a default value.
@@ -21,6 +22,7 @@ def dispatch (st : St) (line : String) : St × String :=
     match head.splitOn "." with
     | ["net", op] => (st, (Net.step op args).getD "bad-op")
     | ["bw", op] => (st, (Bandwidth.step op args).getD "bad-op")
+    | ["cap", op] => (st, (Capacity.step op args).getD "bad-op")
     | ["tok", op] =>
       match Token.step st.tok op args with
       | some (t, o) => ({ st with tok := t }, o)
